@@ -171,7 +171,9 @@ func (x *XmlNode) Find(start int, m meta.Definition) int {
 }
 
 func (x *XmlNode) Choose(sel *node.Selection, choice *meta.Choice) (*meta.ChoiceCase, error) {
-	for _, c := range choice.Cases() {
+	// in case-name order so the answer does not depend on map order
+	for _, caseId := range choice.CaseIdents() {
+		c := choice.Cases()[caseId]
 		for _, m := range c.DataDefinitions() {
 			if x.Find(0, m) >= 0 {
 				return c, nil
